@@ -25,6 +25,12 @@ Lemma cmsg_eqb_refl m : cmsg_eqb m m = true.
 Proof. destruct m; cbn [cmsg_eqb]; try reflexivity; rewrite ?N.eqb_refl, ?nbal_eqb_refl; reflexivity. Qed.
 Lemma nlist_eqb_refl l : nlist_eqb l l = true.
 Proof. apply list_eqb_refl. exact N.eqb_refl. Qed.
+Lemma nset_eqb_refl l : nset_eqb l l = true.
+Proof.
+  unfold nset_eqb. assert (F: forallb (fun x => nmem x l) l = true).
+  { apply forallb_forall. intros x Hx. unfold nmem. apply existsb_exists. exists x. split; [exact Hx|apply N.eqb_refl]. }
+  rewrite F. reflexivity.
+Qed.
 
 (* the two files define the same projections *)
 Lemma stored_same st s : Cw1Check.stored st s = Cw1Lemmas.stored st s.
@@ -134,7 +140,7 @@ Proof.
     rewrite F. reflexivity.
   - (* UpdateAdmins *)
     destruct (admin_ops_spec _ _ _ _ _ _ (or_intror (ex_intro _ l eq_refl)) E) as (Hm & Ha & _ & B1 & B2 & _ & [(C & _)|(l0 & xs & C & Hv & C1 & C2)]); [discriminate|].
-    inversion C; subst l0. unfold s_c17. rewrite Hm, Ha, Hv, C1, C2, nlist_eqb_refl. cbn [andb negb]. rewrite andb_false_r.
+    inversion C; subst l0. unfold s_c17. rewrite Hm, Ha, Hv, C1, C2, nset_eqb_refl. cbn [andb negb]. rewrite andb_false_r.
     match goal with |- (if negb (forallb ?f ?l) then _ else _) = _ => assert (F: forallb f l = true) end.
     { apply forallb_forall. intros s _. unfold Cw1Check.stored. rewrite B1, B2, (opt_eqb_refl allow_eqb allow_eqb_refl), (opt_eqb_refl perms_eqb perms_eqb_refl). reflexivity. }
     rewrite F. reflexivity.
